@@ -295,9 +295,16 @@ func modelConn(frames [][]byte, reg *MReg) *MOut {
 					par = stepPayload(cs.ID, i, cs.Pad)
 				}
 			}
+			if st.RawKind != "" {
+				par = nil // a nil raw value goes out as null
+			}
 			switch st.Op {
 			case "reply":
 				if st.Cont && !k.More {
+					d.Steps = append(d.Steps, fmt.Sprintf("%d:err", i))
+				} else if (st.RawKind == "empty" || st.RawKind == "invalid") && !k.Oneway {
+					// a raw value that is not JSON (zero bytes, or a lone brace) cannot be encoded: the handler gets an error, nothing
+					// goes out (for a oneway call nothing is encoded in the first place)
 					d.Steps = append(d.Steps, fmt.Sprintf("%d:err", i))
 				} else {
 					emit(MFrame{Params: par, Continues: st.Cont})
